@@ -1899,22 +1899,17 @@ namespace chaiscript {
             throw exception::eval_error("Incomplete 'if' block", File_Position(m_position.line, m_position.col), *m_filename);
           }
 
-          bool has_matches = true;
-          while (has_matches) {
-            while (Eol()) {
-            }
-            has_matches = false;
-            if (Keyword("else")) {
-              if (If()) {
-                has_matches = true;
-              } else {
-                while (Eol()) {
-                }
+          while (Eol()) {
+          }
 
-                if (!Block()) {
-                  throw exception::eval_error("Incomplete 'else' block", File_Position(m_position.line, m_position.col), *m_filename);
-                }
-                has_matches = true;
+          // at most one else branch: an 'else if' chain is handled by the nested If()
+          if (Keyword("else")) {
+            if (!If()) {
+              while (Eol()) {
+              }
+
+              if (!Block()) {
+                throw exception::eval_error("Incomplete 'else' block", File_Position(m_position.line, m_position.col), *m_filename);
               }
             }
           }
